@@ -13,7 +13,8 @@ package core
 // contract, self-destruct + funding, EIP-7702 delegation followed by a call of the
 // delegated account, coinbase payments, system-contract reads and a withdrawal
 // request) becomes one Amsterdam block: the sequential processor executes the
-// selection on genesis and the header is completed from that execution.
+// selection on top of a chain of 7 empty ancestors and the header is completed
+// from that execution (BLOCKHASH units reach back to N-1, N-3, N-6 and genesis).
 //
 // Oracle A (differential, schedule independent): the block is executed by the
 // sequential processor and by the parallel processor (workers run free) under
@@ -82,6 +83,7 @@ var (
 	c33CB    = common.HexToAddress("0xcb00000000000000000000000000000000000c09") // fee recipient
 	c33W     = common.HexToAddress("0x3300000000000000000000000000000000003310") // withdrawal recipient (absent)
 	c33Extra = common.HexToAddress("0x9900000000000000000000000000000000009911") // never touched: "extra account" edit
+	c33BH    = common.HexToAddress("0xb100000000000000000000000000000000000b12") // stores and logs BLOCKHASH of ancestors N-1, N-3, N-6, N-8 and of N itself
 )
 
 type c33World struct {
@@ -92,7 +94,16 @@ type c33World struct {
 	k      common.Address // contract created by FAC
 	txs    []c33TxSpec
 	beacon common.Hash
+	prefix []*types.Block // empty Amsterdam ancestors 1..c33Ancestors; the explored blocks are their children
 }
+
+// c33Ancestors is the number of empty blocks between genesis and the explored
+// block, so that BLOCKHASH / header-chain walks reach real ancestors.
+const c33Ancestors = 7
+
+// c33BHDepths are the ancestor distances the BH contract asks BLOCKHASH for
+// (the last one is genesis); it also asks for the block's own number (=> 0).
+var c33BHDepths = []int{1, 3, 6, 8}
 
 const (
 	c33A = iota
@@ -154,6 +165,17 @@ func c33NewWorld() *c33World {
 	rev := program.New().Push(1).Push(0).Op(vm.MSTORE).Call(nil, c33CTR, 0, 0, 32, 0, 0).Op(vm.POP).
 		Push(0).Push(0).Op(vm.REVERT).Bytes()
 
+	// BH: for k, d in c33BHDepths: h = BLOCKHASH(NUMBER-d); mem[32k] = h; SSTORE(calldata[0]+k, h);
+	// then SSTORE(calldata[0]+4, BLOCKHASH(NUMBER)+7) and LOG0(mem[0:128]).
+	bh := program.New()
+	for k, d := range c33BHDepths {
+		bh.Push(d).Op(vm.NUMBER, vm.SUB, vm.BLOCKHASH)
+		bh.Op(vm.DUP1).Push(32 * k).Op(vm.MSTORE)
+		bh.Push(k).Push(0).Op(vm.CALLDATALOAD, vm.ADD, vm.SSTORE)
+	}
+	bh.Op(vm.NUMBER, vm.BLOCKHASH).Push(7).Op(vm.ADD).Push(4).Push(0).Op(vm.CALLDATALOAD, vm.ADD, vm.SSTORE)
+	bh.Push(32 * len(c33BHDepths)).Push(0).Op(vm.LOG0, vm.STOP)
+
 	keyA, _ := crypto.HexToECDSA("b71c71a67e1177ad4e901695e1b4b9ee17ae16c6668d313eac2f96dbcda3f291")
 	w.keys = []*ecdsa.PrivateKey{keyA, c33KeyB, c33KeyC, c33KeyP, c33KeyE}
 	for _, k := range w.keys {
@@ -186,6 +208,7 @@ func c33NewWorld() *c33World {
 		c33D:          {Code: d, Balance: big.NewInt(1000), Nonce: 1, Storage: map[common.Hash]common.Hash{{}: common.BigToHash(big.NewInt(1))}},
 		c33DLG:        {Code: c33Adder(), Balance: common.Big0, Nonce: 1},
 		c33REV:        {Code: rev, Balance: common.Big0, Nonce: 1},
+		c33BH:         {Code: bh.Bytes(), Balance: common.Big0, Nonce: 1},
 	})
 	w.env.gspec.GasLimit = 30_000_000
 	if w.addrs[c33A] != w.env.from {
@@ -240,15 +263,20 @@ func c33NewWorld() *c33World {
 		setcode,
 		call("CALLE_A", c33A, w.addrs[c33E], 0, c33Word(1)),
 		// up to here: the entries whose 0-2 transaction blocks are edited in the quick tier
+		call("BH_A", c33A, c33BH, 0, c33Word(0x10)),
+		call("BH_B", c33B, c33BH, 0, c33Word(0x20)),
+		// the entries below take part in pairs (quick) and in triples only in the thorough tier
 		call("FUND_D_A", c33A, c33D, 77, nil),
 		call("T_A_X", c33A, c33X, 1234, nil),
-		// the entries below take part in pairs (quick) and in triples only in the thorough tier
 		call("INC_B", c33B, c33CTR, 0, c33Word(1)),
 		call("FACSD_C", c33C, c33FACSD, 0, nil),
 		call("WREQ_A", c33A, params.WithdrawalQueueAddress, 1, wreq),
 		call("PAYCB_C", c33C, c33CB, 999, nil),
 		call("REV_C", c33C, c33REV, 0, nil),
+		call("BH_C", c33C, c33BH, 0, c33Word(0x30)),
 	}
+	// the ancestors: empty blocks, generated once
+	_, w.prefix, _ = GenerateChainWithGenesis(w.env.gspec, w.engine, c33Ancestors, func(int, *BlockGen) {})
 	return w
 }
 
@@ -281,7 +309,7 @@ func (w *c33World) feasible(sel []int) bool {
 }
 
 // build makes the block for a selection: the transactions are executed by the
-// sequential processor on top of genesis and the header is completed from that
+// sequential processor on top of the last ancestor and the header is completed from that
 // execution (state root, receipts, bloom, gas, requests hash and the hash of the
 // access list sequential execution produced), the way a block producer does.
 func (w *c33World) build(c *c33Chain, sel []int) (b *c33Block, err error) {
@@ -296,7 +324,7 @@ func (w *c33World) build(c *c33Chain, sel []int) (b *c33Block, err error) {
 	}
 	var (
 		cfg    = w.env.cfg
-		parent = c.bc.Genesis().Header()
+		parent = c.bc.CurrentBlock()
 		tm     = parent.Time + 10
 		excess = eip4844.CalcExcessBlobGas(cfg, parent, tm)
 		slot   = uint64(0)
@@ -306,7 +334,7 @@ func (w *c33World) build(c *c33Chain, sel []int) (b *c33Block, err error) {
 		slot = *parent.SlotNumber + 1
 	}
 	h := &types.Header{
-		ParentHash: parent.Hash(), Coinbase: c33CB, Difficulty: new(big.Int), GasLimit: parent.GasLimit, Number: big.NewInt(1), Time: tm,
+		ParentHash: parent.Hash(), Coinbase: c33CB, Difficulty: new(big.Int), GasLimit: parent.GasLimit, Number: new(big.Int).Add(parent.Number, common.Big1), Time: tm,
 		BaseFee: eip1559.CalcBaseFee(cfg, parent), ExcessBlobGas: &excess, BlobGasUsed: new(uint64), ParentBeaconRoot: &root, SlotNumber: &slot,
 	}
 	body := &types.Body{Transactions: txs, Withdrawals: []*types.Withdrawal{{Index: 0, Validator: 7, Address: c33W, Amount: 3}}}
@@ -396,6 +424,48 @@ func (w *c33World) observe(r *mc.R, b *c33Block) error {
 	return nil
 }
 
+// observeBH checks that every BH transaction of the reference execution logged
+// the real ancestor hashes (so the enumerated blocks do walk the header chain).
+func (w *c33World) observeBH(r *mc.R, b *c33Block) error {
+	for pos, n := range b.names {
+		if !strings.HasPrefix(n, "BH_") {
+			continue
+		}
+		var data []byte
+		for _, l := range b.ref.res.Receipts[pos].Logs {
+			if l.Address == c33BH && len(l.Data) == 32*len(c33BHDepths) {
+				data = l.Data
+			}
+		}
+		if data == nil {
+			return fmt.Errorf("%s did not log (status %d)", n, b.ref.res.Receipts[pos].Status)
+		}
+		for k, d := range c33BHDepths {
+			want := w.prefix[0].ParentHash() // genesis
+			if d <= c33Ancestors {
+				want = w.prefix[c33Ancestors-d].Hash()
+			}
+			if got := common.BytesToHash(data[32*k : 32*k+32]); got != want {
+				return fmt.Errorf("%s: BLOCKHASH(N-%d) = %x, want %x", n, d, got, want)
+			}
+		}
+		r.Outcome("observed:ancestor-hashes-N-1,N-3,N-6,N-8")
+	}
+	return nil
+}
+
+// c33Digest is a compact form of the compared results (used where a block is
+// executed many times): gas, state root, receipt root (covers status, cumulative
+// gas, bloom and logs), requests and the rebuilt access list.
+func c33Digest(res *ProcessResult, root common.Hash) string {
+	enc, err := rlp.EncodeToBytes(res.Bal.ToEncodingObj())
+	if err != nil {
+		return "bal encode error: " + err.Error()
+	}
+	return fmt.Sprintf("gas=%d root=%x receipts=%x requests=%x bal=%x", res.GasUsed, root,
+		types.DeriveSha(res.Receipts, trie.NewStackTrie(nil)), types.CalcRequestsHash(res.Requests), crypto.Keccak256(enc))
+}
+
 // c33Outcome is everything the statement compares, rendered canonically.
 type c33Outcome struct {
 	fields []string // "name=value", fixed order
@@ -467,7 +537,7 @@ func (o *c33Outcome) diff(other *c33Outcome) string {
 	return ""
 }
 
-// c33Chain is one BlockChain at genesis; blocks are executed against it without
+// c33Chain is one BlockChain whose head is the last ancestor; blocks are executed against it without
 // ever being written, so it can be reused for any number of cases.
 type c33Chain struct{ bc *BlockChain }
 
@@ -491,6 +561,12 @@ func (p *c33Pool) get() *c33Chain {
 	bc, err := NewBlockChain(rawdb.NewMemoryDatabase(), p.w.env.gspec, p.w.engine, nil)
 	if err != nil {
 		panic(fmt.Sprintf("c33: cannot create chain: %v", err))
+	}
+	if _, err := bc.InsertChain(p.w.prefix); err != nil {
+		panic(fmt.Sprintf("c33: cannot import the ancestors: %v", err))
+	}
+	if head := bc.CurrentBlock(); head.Number.Uint64() != c33Ancestors || head.Hash() != p.w.prefix[c33Ancestors-1].Hash() {
+		panic(fmt.Sprintf("c33: head is block %d after importing the ancestors", head.Number))
 	}
 	c := &c33Chain{bc: bc}
 	p.mu.Lock()
@@ -1109,7 +1185,7 @@ func TestVerif_C33(t *testing.T) {
 		r.Bound("static_every", staticEvery)
 		r.Bound("gomaxprocs", procs)
 		r.Assume("worker goroutines of the parallel processor, the access-list prefetcher and the trie prefetcher run free; the oracle does not depend on their schedule (controlled schedules are a separate part of C33)")
-		r.Assume("a block is the sequential processor's execution of the selection on genesis with the header completed from that execution (AssembleBlock); the sequential reference is StateProcessor.Process with DisableParallelExecution")
+		r.Assume("a block is the sequential processor's execution of the selection on top of 7 empty Amsterdam ancestors (block 8) with the header completed from that execution (AssembleBlock); the sequential reference is StateProcessor.Process with DisableParallelExecution")
 		r.Assume("pass 2 of oracle B relies on block execution not reading the header's state root, receipt root, bloom, gas used and requests hash (thorough re-executes through ProcessBlock)")
 
 		var all []int
@@ -1202,6 +1278,9 @@ func TestVerif_C33(t *testing.T) {
 				}
 				r.Outcome("built:statuses=" + st)
 				if err := w.observe(r, b); err != nil {
+					r.HarnessError(fmt.Sprintf("c33: %v: %v", b.names, err))
+				}
+				if err := w.observeBH(r, b); err != nil {
 					r.HarnessError(fmt.Sprintf("c33: %v: %v", b.names, err))
 				}
 				if len(b.ref.res.Requests) > 0 {
@@ -1336,5 +1415,138 @@ func TestVerif_C33(t *testing.T) {
 		lap("oracleB")
 		r.Bound("edited_blocks", len(targets))
 		r.Bound("edits", nEdits.Load())
+	})
+}
+
+// TestVerif_C33_race is the auxiliary free-running pass that run.py builds with
+// `go test -race`: a reduced oracle A (every ordered selection of 2 transactions
+// of the full alphabet, each block executed `reps` times by the parallel
+// processor under GOMAXPROCS 4 and 16 and compared with the sequential result).
+// Besides the result comparison done here, any report of the Go race detector in
+// the log of this step is turned into a violation by run.py: state shared between
+// the processor's worker goroutines without synchronisation is found even when the
+// interleaving that corrupts the result does not happen in this run.
+func TestVerif_C33_race(t *testing.T) {
+	mc.Run(t, "C33", func(r *mc.R) {
+		defer runtime.GOMAXPROCS(runtime.GOMAXPROCS(0))
+		w := c33NewWorld()
+		pool := &c33Pool{w: w}
+		defer pool.close()
+
+		reps := mc.Pick(r, 2, 20)
+		procs := []int{4, 16}
+		r.Rule("every ordered selection of 2 transactions of the full alphabet (incl. the BLOCKHASH units of three senders) on top of 7 empty ancestors; each block executed reps times by the access-list-driven processor per GOMAXPROCS value, " +
+			"result digest (gas, state root, receipt root, requests hash, rebuilt access list) compared with sequential execution, ValidateState must accept; the step runs under the Go race detector")
+		r.Bound("alphabet", len(w.txs))
+		r.Bound("repetitions_per_gomaxprocs", reps)
+		r.Bound("gomaxprocs", procs)
+		r.Assume("free-running goroutines: the race detector observes the synchronisation actually performed, it does not enumerate schedules")
+
+		var all []int
+		for i := range w.txs {
+			all = append(all, i)
+		}
+		sels := c33Selections(all, 2)
+		if r.Replaying() {
+			var d struct {
+				Txs []string `json:"txs"`
+			}
+			_ = json.Unmarshal(r.ReplayDescriptor(), &d)
+			var keep [][]int
+			for _, sel := range sels {
+				if len(d.Txs) == 2 && w.txs[sel[0]].name == d.Txs[0] && w.txs[sel[1]].name == d.Txs[1] {
+					keep = append(keep, sel)
+				}
+			}
+			sels = keep
+		}
+		type item struct {
+			b      *c33Block
+			digest string
+		}
+		runtime.GOMAXPROCS(16)
+		items := make([]*item, len(sels))
+		r.Parallel(len(sels), func(i int) {
+			if !w.feasible(sels[i]) {
+				r.Outcome("infeasible-selection")
+				return
+			}
+			c := pool.get()
+			defer pool.put(c)
+			err := mc.Safely(func() error {
+				b, err := w.build(c, sels[i])
+				if err != nil {
+					return err
+				}
+				// the block header is the sequential execution's result (see build)
+				h := b.block.Header()
+				items[i] = &item{b, fmt.Sprintf("gas=%d root=%x receipts=%x requests=%x bal=%x", h.GasUsed, h.Root, h.ReceiptHash, *h.RequestsHash, *h.BlockAccessListHash)}
+				return nil
+			})
+			if err != nil {
+				names := []string{w.txs[sels[i][0]].name, w.txs[sels[i][1]].name}
+				r.Violation("race-build:"+fmt.Sprint(names), err.Error(), map[string]any{"phase": "race-build", "txs": names})
+			}
+		})
+		var live []*item
+		for _, it := range items {
+			if it != nil {
+				live = append(live, it)
+			}
+		}
+		r.Bound("blocks", len(live))
+		for _, g := range procs {
+			if r.Expired() {
+				return
+			}
+			runtime.GOMAXPROCS(g)
+			var (
+				next atomic.Int64
+				runs atomic.Int64
+				wg   sync.WaitGroup
+			)
+			for wk := 0; wk < 16; wk++ {
+				wg.Add(1)
+				go func() {
+					defer wg.Done()
+					c := pool.get()
+					defer pool.put(c)
+					for {
+						i := int(next.Add(1) - 1)
+						if i >= len(live) || r.Expired() {
+							return
+						}
+						it := live[i]
+						desc := map[string]any{"phase": "race", "gomaxprocs": g, "txs": it.b.names}
+						r.Case(desc, func() error {
+							for rep := 0; rep < reps; rep++ {
+								var got string
+								var valErr error
+								procErr := c.parallelDo(it.b.block, func(statedb *state.StateDB, res *ProcessResult) {
+									valErr = c.bc.validator.ValidateState(it.b.block, statedb, res, false)
+									got = c33Digest(res, statedb.IntermediateRoot(c.rules(it.b.block)))
+								})
+								runs.Add(1)
+								switch {
+								case procErr != nil:
+									return fmt.Errorf("repetition %d: parallel execution failed on a block sequential execution accepts: %v", rep, procErr)
+								case got != it.digest:
+									return fmt.Errorf("repetition %d: parallel != sequential:\n  sequential %s\n  parallel   %s", rep, it.digest, got)
+								case valErr != nil:
+									return fmt.Errorf("repetition %d: ValidateState rejects the true block after parallel execution: %v", rep, valErr)
+								}
+							}
+							return nil
+						})
+						r.DistinctHash(mc.Hash64(fmt.Sprint(g) + string(it.b.balEnc)))
+						if i%97 == 0 {
+							r.Sample(desc)
+						}
+					}
+				}()
+			}
+			wg.Wait()
+			r.OutcomeN(fmt.Sprintf("race-pass:parallel-executions:gomaxprocs=%d", g), runs.Load())
+		}
 	})
 }
